@@ -153,7 +153,16 @@ def proof_status(pid, regen_log="", tier="quick"):
         st["broken"] = where
         return st
     os.makedirs(os.path.join(BUILD, "recheck"), exist_ok=True)
-    r = subprocess.run(["coqc", "-w", "-all", "-Q", ".", "LP", f"Properties_{pid}.v", "-o", os.path.join(BUILD, "recheck", f"Properties_{pid}.vo")], cwd=COQ, stdout=subprocess.PIPE, stderr=subprocess.STDOUT, text=True, timeout=1800)
+    rdir = os.path.join(BUILD, "recheck", str(os.getpid())); os.makedirs(rdir, exist_ok=True)      # per process: runs of one property may overlap
+    rvo = os.path.join(rdir, f"Properties_{pid}.vo")
+    r = subprocess.run(["coqc", "-w", "-all", "-Q", ".", "LP", f"Properties_{pid}.v", "-o", rvo], cwd=COQ, stdout=subprocess.PIPE, stderr=subprocess.STDOUT, text=True, timeout=1800)
+    shutil.rmtree(rdir, ignore_errors=True)
+    if r.returncode != 0 and "inconsistent assumptions" in r.stdout:
+        # a concurrent build replaced a dependency between make and this re-check: build again and repeat once
+        coq_make([f"Properties_{pid}.vo"])
+        os.makedirs(rdir, exist_ok=True)
+        r = subprocess.run(["coqc", "-w", "-all", "-Q", ".", "LP", f"Properties_{pid}.v", "-o", rvo], cwd=COQ, stdout=subprocess.PIPE, stderr=subprocess.STDOUT, text=True, timeout=1800)
+        shutil.rmtree(rdir, ignore_errors=True)
     if r.returncode != 0:
         st["broken"] = {"what": "re-check of the property file failed", "log": r.stdout[-3000:]}; return st
     st["discharged"] = len(thms)
